@@ -391,7 +391,8 @@ func run(p *props.Prop, args []string) int {
 	}
 	for _, e := range known {
 		if e.Status == "known" && e.Property == p.ID && !knownHit[e.ID] {
-			lines = append(lines, fmt.Sprintf("NOTE: known finding %s was not observed in this run (KNOWN-FINDING-GONE?)", e.ID))
+			// listed findings are always named, so that the output says which violations are expected on this tree
+			lines = append(lines, fmt.Sprintf("KNOWN-FINDING: property=%s %s [%s; listed in known_findings.json, not exercised or no longer observed in this run]", p.ID, e.What, e.ID))
 		}
 	}
 
